@@ -208,7 +208,7 @@ def run_unit(name, tier="quick", config="A", opts=None, keep=None):
         res["solver_seconds"] = (tms.get("smt", {}) or {}).get("total", 0) / 1000.0 if tms else None
         res["verus_functions_verified"] = vr.get("verified")
         diags, junk = parse_diagnostics(err)
-        undec, failed = [], []
+        undec, failed, rejected_in = [], [], []
         for dg in diags:
             if dg.get("level") != "error":
                 continue
@@ -263,11 +263,34 @@ def run_unit(name, tier="quick", config="A", opts=None, keep=None):
                 undec.append(msg)
             else:
                 undec.append("verus rejected the assembled unit: %s (%s)" % (msg[:300], _origin(pl, linemap)))
+                # rejected inside a repo function (its shape changed under the contract overlay): remember the
+                # function so that `check` can ask the directed search for a concrete failing input
+                fnr = _fn_at(pl, asm.fn_ranges)
+                if fnr:
+                    rejected_in.append(failed_obligation(fnr[2], "other", "unit rejected by Verus: " + msg[:200],
+                                                         location="%s:%d" % (fnr[3], fnr[4])))
         if rc == -9:
             undec.append("verus timed out")
         if not vr and not failed and not undec:
             undec.append("verus produced no result: " + (" | ".join(junk[-5:]) or err[-500:]))
         nfail_fns = vr.get("errors", 0)
+        # proof hints that lost their anchor were dropped by the extractor: a failed obligation in such a
+        # function may be due to the missing hint, so it is *suspect* (undecided), not an alarm by itself;
+        # `check` then asks the directed search for a concrete failing input on the real code.
+        lost_fns = {p for (p, _) in getattr(asm, "lost", [])}
+        res["lost_anchors"] = [d for (_, d) in getattr(asm, "lost", [])]
+        suspect = [f for f in failed if f["function"] in lost_fns]
+        failed = [f for f in failed if f["function"] not in lost_fns]
+        seen_fn = set()
+        for f in rejected_in:
+            if f["function"] not in seen_fn:
+                seen_fn.add(f["function"])
+                suspect.append(f)
+        res["suspect"] = suspect
+        if suspect and not failed:
+            undec.append("proof hints lost their anchors (%s); obligations that now fail there are undecided: %s"
+                         % ("; ".join(res["lost_anchors"])[:600],
+                            ", ".join("%s [%s]" % (f["function"], f["kind"]) for f in suspect)[:600]))
         res["failed"] = failed
         res["trusted_base"] = scan_trusted(text)
         forbidden = [t for t in res["trusted_base"] if t.startswith("assume ") or t.startswith("admit ")]
